@@ -495,6 +495,7 @@ for _p in ("C04", "C06", "C09", "C11", "C13"):
 PROPERTIES["C06"]["spec_checks"] = LEMMAS + [{"kind": "tlaps", "module": "BiomTableProofs.tla", "deps": []}]
 # ... and that content equality is an equivalence relation (same proof module)
 PROPERTIES["C16"]["spec_checks"] = [LEMMAS[0], {"kind": "tlaps", "module": "BiomTableProofs.tla", "deps": []}]
+PROPERTIES["C18"]["spec_checks"] = [LEMMAS[0], {"kind": "tlaps", "module": "BiomTableProofs.tla", "deps": []}]
 PROPERTIES["C08"]["spec_checks"] = LEMMAS + [{"module": "MC_Lemmas.tla", "cfg": "MC_Lemmas_big.cfg", "workers": 16,
                                                "thorough_only": True, "timeout": 4000}]
 
